@@ -174,14 +174,80 @@ Definition byte_bounds (a : view) : Z * Z :=
                       (combine (v_shape a) (v_strides a)) (v_ptr a, v_ptr a) in
     (lo, hi + v_isz a).
 
-(* arguments _reduce_memmap_backed hands to _strided_from_memmap: offset, order, strides, total_buffer_len *)
+(* numpy's contiguity flags (relaxed strides: extents of 1 are ignored; an empty array is both) *)
+Fixpoint is_c_contig (shape strides : list Z) (isz : Z) : bool :=
+  match shape, strides with
+  | [], [] => true
+  | n :: ns, s :: ss => ((n =? 1) || (s =? isz * prodZ ns)) && is_c_contig ns ss isz
+  | _, _ => false
+  end.
+Fixpoint is_f_contig_from (acc : Z) (shape strides : list Z) : bool :=
+  match shape, strides with
+  | [], [] => true
+  | n :: ns, s :: ss => ((n =? 1) || (s =? acc)) && is_f_contig_from (acc * n) ns ss
+  | _, _ => false
+  end.
+Definition np_c_contig (shape strides : list Z) (isz : Z) : bool :=
+  existsb (Z.eqb 0) shape || is_c_contig shape strides isz.
+Definition np_f_contig (shape strides : list Z) (isz : Z) : bool :=
+  existsb (Z.eqb 0) shape || is_f_contig_from isz shape strides.
+
+(* arguments _reduce_memmap_backed hands to _strided_from_memmap: offset, order, strides, total_buffer_len.
+   The decision and the arithmetic are the TRANSLATED [reduce_args] (Gen/C19_Padding.v); byte_bounds feeds it. *)
 Definition reduce_memmap (a : view) (m : backing) : result (Z * order * option (list Z) * option Z) :=
+  let '(a_start, a_end) := byte_bounds a in
+  bind (reduce_args a_start a_end (m_start m) (m_offset m) (v_isz a) (m_f m) (v_f a) (v_c a))
+       (fun '(offset, o, st, total) =>
+          Ok (offset, (if o =? 1 then OrdF else OrdC),
+              match st with Some _ => Some (v_strides a) | None => None end, total)).
+
+(* hand model of the same function, second route of the correspondence *)
+Definition reduce_memmap_hand (a : view) (m : backing) : result (Z * order * option (list Z) * option Z) :=
   let '(a_start, a_end) := byte_bounds a in
   let offset := a_start - m_start m + m_offset m in
   let ord := if m_f m then OrdF else OrdC in
-  (* contiguous view: the order of the VIEW ('F' iff F- and not C-contiguous) *)
   if v_f a || v_c a then Ok (offset, (if v_f a && negb (v_c a) then OrdF else OrdC), None, None)
   else bind (py_floordiv (a_end - a_start) (v_isz a)) (fun total => Ok (offset, ord, Some (v_strides a), Some total)).
+
+(* the rule the code had before finding F28 was fixed: a contiguous view was re-mapped with the order of
+   the BACKING memmap *)
+Definition reduce_memmap_old (a : view) (m : backing) : result (Z * order * option (list Z) * option Z) :=
+  let '(a_start, a_end) := byte_bounds a in
+  let offset := a_start - m_start m + m_offset m in
+  let ord := if m_f m then OrdF else OrdC in
+  if v_f a || v_c a then Ok (offset, ord, None, None)
+  else bind (py_floordiv (a_end - a_start) (v_isz a)) (fun total => Ok (offset, ord, Some (v_strides a), Some total)).
+
+(* which reduction an array takes on its way to / back from a worker
+   (ArrayMemmapForwardReducer.__call__, reduce_array_memmap_backward); the threshold test is translated *)
+Inductive route := RReduceBacked | RDumpTemp | RPickle.
+Definition forward_route (has_backing hasobject : bool) (max_nbytes : option Z) (nbytes : Z) : result route :=
+  if has_backing then Ok RReduceBacked
+  else bind (forward_memmaps hasobject max_nbytes nbytes) (fun b => Ok (if b then RDumpTemp else RPickle)).
+Definition backward_route (has_backing is_joblib_temp : bool) : route :=
+  if has_backing && negb is_joblib_temp then RReduceBacked else RPickle.
+
+(* ------------------------------------------------------------------ array types and payload kinds *)
+
+(* type(obj) as NumpyPickler.save sees it *)
+Inductive arrtype := TNdarray | TMatrix | TMemmap | TSubclass.
+(* save: `type(obj) in (np.ndarray, np.matrix, np.memmap)` -- other subclasses are pickled by numpy itself *)
+Definition save_intercepts (t : arrtype) : bool := match t with TSubclass => false | _ => true end.
+(* write_array / read_array: object arrays are pickled (protocol 2) right after the wrapper, no padding;
+   everything else is the padded raw payload *)
+Inductive payload := PPickle2 | PRaw.
+Definition payload_kind (hasobject : bool) : payload := if hasobject then PPickle2 else PRaw.
+(* NumpyArrayWrapper.read: read_mmap iff the unpickler has an mmap_mode and the wrapper allows it *)
+Definition reads_via_mmap (unpickler_mmap allow : bool) : bool := unpickler_mmap && allow.
+(* NumpyArrayWrapper.read, subclass handling:
+     if hasattr(array, "__array_prepare__") and self.subclass not in (ndarray, memmap): rebuild the subclass
+     else: return the array as read (an ndarray, or a memmap when read through read_mmap) *)
+Definition loaded_type (t : arrtype) (has_array_prepare via_mmap : bool) : arrtype :=
+  let base := if via_mmap then TMemmap else TNdarray in
+  match t with
+  | TMatrix | TSubclass => if has_array_prepare then t else base
+  | TNdarray | TMemmap => base
+  end.
 
 (* file offset of element idx of the original view *)
 Definition orig_elem_off (a : view) (m : backing) (idx : list Z) : Z :=
